@@ -39,7 +39,8 @@ Section PipelineProofs.
   Lemma dominated_spec : forall u a,
     dominated info (filter (fun b => ai_tpt (info b)) (nodupz u)) a =
     (let pc := preferred_cls (ai_cls (info a)) in
-     negb (pc =? 0) && existsb (fun b => ai_tpt (info b) && (ai_cls (info b) =? pc) && (ai_grp (info b) =? ai_grp (info a))) u).
+     negb (pc =? 0) && negb (ai_grp (info a) =? 0) &&
+     existsb (fun b => ai_tpt (info b) && (ai_cls (info b) =? pc) && (ai_grp (info b) =? ai_grp (info a))) u).
   Proof.
     intros u a. unfold dominated. cbv zeta. f_equal.
     match goal with |- ?x = ?y => destruct x eqn:E1; destruct y eqn:E2; try reflexivity; exfalso end.
